@@ -317,6 +317,150 @@ def conc_history(sg, occ, vals, hist):
     return msgs
 
 
+# ------------------------------------------------------------------------------ H08e: two-dimensional inputs
+def h08e(layer_idx, i_np, variant):
+    """parameters of a layer's sets through the public API (2D branch): the normal coordinate of the orbit is a fixed small
+    number and min_2d_thickness is 1, in-plane parameters stay symbolic"""
+    from harness import C11
+
+    sg, k_std, occ, normal_params = C11.LAYERS[layer_idx]
+
+    def fn(e):
+        ds = S.make_dataset(e, sg, occ)
+        # replace the normal parameter by a concrete value: rebuild the dataset with mixed concrete/symbolic parameters
+        conc = []
+        for (letter, Z), which, prm in zip(occ, normal_params, ds["_params"]):
+            conc.append([(F(1, 16) if which == v else (prm["xyz".index(v)] if isinstance(prm["xyz".index(v)], SReal) and not prm["xyz".index(v)].is_const() else F(0))) for v in "xyz"])
+        ds = S.make_dataset(e, sg, occ, concrete_params=None)
+        # substitute: positions are linear in the parameters, so a second dataset built from Fractions where concrete
+        pos = []
+        for oi, (letter, Z) in enumerate(occ):
+            xyz = [c if isinstance(c, SReal) else SReal.const(c) for c in conc[oi]]
+            for p in S.orbit(sg, letter):
+                pos.append([x % 1 for x in p.sreal(xyz)])
+        ds["std_positions"] = np.array(pos, dtype=object).reshape(-1, 3)
+        ds["orig_positions"] = ds["std_positions"]
+        lat = C11.layer_lattice(sg, k_std)
+        if any(isinstance(v, str) for row in lat for v in row):
+            return     # hexagonal settings carry sqrt(3): covered by the concrete replay family only
+        ds["std_lattice"] = const_array(lat)
+        ds["transformation_matrix"] = np.array(C11.transformation_matrix(i_np, k_std, variant), dtype=float)
+        pbc = [True, True, True]
+        pbc[i_np] = False
+        n = len(ds.std_types)
+        osys = S.StubAtoms(numbers=np.array(ds.std_types), scaled_positions=const_array(np.full((n, 3), 0.25)), cell=const_array([[3, 0, 0], [0, 4, 0], [0, 0, 5]]), pbc=pbc)
+        ses = S.Session([ds])
+        ses.systems = [osys]
+        ses.table = {id(osys): ds}
+
+        def com(system):
+            f = system.get_scaled_positions(wrap=True)
+            # concrete along the normal: the circular mean of a thin slab around 0 (mod 1) lies at 0 up to the slab half width
+            cm = np.array([SReal.const(F(1, 3)), SReal.const(F(1, 5)), SReal.const(F(1, 7))], dtype=object)
+            cm[k_std] = SReal.const(F(1, 100))
+            return np.dot(cm, system.get_cell())
+        NPProxy.hooks["lexsort"] = lambda keys: np.arange(len(np.asarray(keys[0])))
+        exc = None
+        try:
+            with ses.active(), patched(SA.matid.geometry, get_center_of_mass=com), patched(SA.SymmetryAnalyzer, _search_periodic_positions=search_contract(False)):
+                try:
+                    an = ses.start(min_2d_thickness=1)
+                    conv = an.get_conventional_system()
+                    sets = an.get_wyckoff_sets_conventional(return_parameters=True)
+                except ValueError as ex:
+                    exc = ex
+        finally:
+            NPProxy.hooks.clear()
+
+        def cex(env):
+            msgs = conc_layer_params(layer_idx, i_np, variant)
+            lab = cex.label
+            return {"key": f"H08e:2D:{lab}", "what": f"two-dimensional input (layer setting {layer_idx}: space group {sg}, normal along std axis {k_std}): " + "; ".join(m for m in msgs if lab.split(':')[0] in m)[:400],
+                    "replay": {"kind": "layer-params", "layer": layer_idx, "i_np": i_np, "variant": variant}, "reproduced": any(lab.split(":")[0] in m for m in msgs)}
+
+        def mk(label):
+            def c(env):
+                cex.label = label
+                return cex(env)
+            return c
+        if exc is not None:
+            e.post("parameters of a layer are resolved (no ValueError)", False, mk("normal-coordinate:ValueError"))
+            return
+        f = conv.get_scaled_positions(wrap=False)
+        for w in sets:
+            variables = sorted(SA.WYCKOFF_SETS[sg][w.wyckoff_letter]["variables"])
+            got = {v: getattr(w, v) for v in "xyz"}
+            e.post("exactly the position's variables are reported", sorted(v for v in got if got[v] is not None) == variables, mk("in-plane:variables"))
+            val = rep_value(w.representative, [got[v] for v in "xyz"])
+            if val is None:
+                continue
+            # the conventional cell has the normal last: representative component k_std corresponds to result axis 2
+            inpl = [k for k in range(3) if k != k_std]
+            ok_in, ok_n = [], []
+            for j in w.indices:
+                a = []
+                for k_in in inpl:
+                    alts = []
+                    for c2 in (0, 1):
+                        d_ = val[k_in] - f[j][c2]
+                        alts.append(z3.IsInt(d_.z3()) if isinstance(d_, SReal) and not d_.is_const() else z3.BoolVal(S.int_syntactic(d_)))
+                    a.append(z3.Or(*alts))
+                ok_in.append(z3.And(*a))
+                d_ = val[k_std] - f[j][2]
+                ok_n.append(z3.And(*a, d_.eqz() if isinstance(d_, SReal) else z3.BoolVal(d_ == 0)))
+            e.post("representative at the reported parameters is an atom of the set: in-plane coordinates (mod lattice)", z3.Or(*ok_in), mk("in-plane:position"))
+            e.post("representative at the reported parameters is an atom of the set: coordinate along the normal", z3.Or(*ok_n), mk("normal-coordinate"))
+        e.reach("H08e")
+        e.sample({"layer": layer_idx, "space_group": sg, "non_periodic_axis": i_np, "sets": [(w.wyckoff_letter, w.element, str(w.x), str(w.y), str(w.z)) for w in sets]})
+    return fn
+
+
+def conc_layer_params(layer_idx, i_np, variant, inplane=(0.137, 0.291)):
+    """real analyzer/numpy/ASE and real periodic centre of mass, spglib's dataset scripted: representative at the reported
+    parameters vs. the atoms of the returned 2D conventional system"""
+    from harness import C11
+    from ase import Atoms
+    sg, k_std, occ, normal_params = C11.LAYERS[layer_idx]
+    vals = []
+    for (letter, Z), which in zip(occ, normal_params):
+        it = iter(inplane)
+        vals.append([(1 / 16 if which == v else (next(it, 0.41) if v in SA.WYCKOFF_SETS[sg][letter]["variables"] else 0.0)) for v in "xyz"])
+    ds = S.concrete_dataset(sg, occ, vals)
+    lat = C11.layer_lattice(sg, k_std)
+    ds["std_lattice"] = np.array([[(1.5 * 3 ** 0.5 if v == "s3" else float(v)) for v in row] for row in lat], dtype=float)
+    ds["transformation_matrix"] = np.array(C11.transformation_matrix(i_np, k_std, variant), dtype=float)
+    pbc = [True, True, True]
+    pbc[i_np] = False
+    n = len(ds.std_types)
+    osys = Atoms(numbers=ds.std_types, scaled_positions=np.full((n, 3), 0.25), cell=np.diag([3.0, 4.0, 5.0]), pbc=pbc)
+    msgs = []
+    with patched(SA, segfault_protect=lambda fn, d, tol: ds):
+        try:
+            an = SA.SymmetryAnalyzer(osys, min_2d_thickness=1, symmetry_tol=1e-4)
+            conv = an.get_conventional_system()
+            sets = an.get_wyckoff_sets_conventional(return_parameters=True)
+        except ValueError as ex:
+            return [f"normal-coordinate: get_wyckoff_sets_conventional(True) raised ValueError: {str(ex)[:120]}"]
+        except Exception as ex:
+            return [f"in-plane: raised {type(ex).__name__}: {ex}"]
+    f = conv.get_scaled_positions(wrap=False)
+    inpl = [k for k in range(3) if k != k_std]
+    for w in sets:
+        got = [getattr(w, v) or 0.0 for v in "xyz"]
+        val = [float(sum(parse_linear(s)[k] * got[k] for k in range(3)) + parse_linear(s)[3]) for s in w.representative]
+        best_in, best_n = 9.0, 9.0
+        for j in w.indices:
+            din = max(min(abs(((val[k_in] - f[j][c2]) + 0.5) % 1 - 0.5) for c2 in (0, 1)) for k_in in inpl)
+            best_in = min(best_in, din)
+            best_n = min(best_n, max(din, abs(val[k_std] - f[j][2])))
+        if best_in > 1e-4:
+            msgs.append(f"in-plane: set {w.wyckoff_letter}/{w.element}: representative {w.representative} at (x,y,z)={got} is not an atom of the set in the plane")
+        if best_n > 1e-4:
+            msgs.append(f"normal-coordinate: set {w.wyckoff_letter}/{w.element}: representative {w.representative} at (x,y,z)={[round(v, 6) for v in got]} has normal coordinate {val[k_std]:.4g}, "
+                        f"the atoms of the set sit at {[round(float(f[j][2]), 4) for j in w.indices]} in the re-centred, minimised 2D cell")
+    return msgs
+
+
 def rows_with_variables(sg):
     return [l for l in S.letters_of(sg) if S.nvars(sg, l) > 0]
 
@@ -346,12 +490,15 @@ def main(tier, seed, only=None):
     for f in (SA.SymmetryAnalyzer._get_wyckoff_sets, SA.SymmetryAnalyzer._search_periodic_positions, SA.SymmetryAnalyzer.get_has_free_wyckoff_parameters,
               SA.SymmetryAnalyzer.get_wyckoff_sets_conventional, G.get_wrapped_positions, WyckoffSet):
         rep.function(f)
-    groups = [int(x) for x in only] if only else list(range(1, 231))
+    groups = [int(x) for x in only if x.isdigit()] if only else list(range(1, 231))
     order = sorted(groups, key=lambda g: -sum(len(S.orbit(g, l)) ** 1.5 for l in rows_with_variables(g)))
     with mp.get_context("fork").Pool(16) as pool:
         for sg, out in pool.imap_unordered(run_group, [(g, tier) for g in order], chunksize=1):
             for fam, st in out:
                 rep.merge_stats(st, fam)
+    if not only or "H08e" in only:
+        for li, i_np, v in ([(3, 2, 0), (6, 0, 1)] if tier == "quick" else [(3, 2, 0), (6, 0, 1), (2, 1, 0), (4, 2, 2), (5, 1, 3)]):
+            rep.merge_stats(explore(h08e(li, i_np, v), f"H08e:L{li}:np{i_np}:v{v}", workers=1, timeout_ms=20000, budget_s=300), "H08e")
     if not only:
         for cname in (("ortho", "pyth") if tier == "quick" else ("ortho", "pyth", "rot", "needle")):
             rep.merge_stats(explore(h08a(cname), f"H08a:{cname}", timeout_ms=20000, budget_s=900, logic="lira"), "H08a")
@@ -375,6 +522,9 @@ def replay(d):
         return bool(msgs), "; ".join(msgs[:4]) or "ok"
     if d["kind"] == "history":
         msgs = conc_history(d["sg"], [tuple(o) for o in d["occupation"]], d["params"], d["history"])
+        return bool(msgs), "; ".join(msgs[:4]) or "ok"
+    if d["kind"] == "layer-params":
+        msgs = conc_layer_params(d["layer"], d["i_np"], d["variant"])
         return bool(msgs), "; ".join(msgs[:4]) or "ok"
     if d["kind"] == "wrap":
         r = G.get_wrapped_positions(np.array([d["v"]]))
